@@ -320,6 +320,17 @@ func c17Requests(u *schema.Universe) []c17Req {
 			return call(w, t, cs, "BatchGet", sl)
 		}},
 		{"get(%2F(:)", func(w *c17World, t int) string { return call(w, t, cs, "Get", schema.VS(strT, "%2F(:")) }},
+		// a REST method with query parameters of its own (the parameters name the calling thread)
+		{"getWithParams(k5)", func(w *c17World, t int) string {
+			var cp *schema.Resource
+			for _, r := range u.Resources {
+				if r.Name() == "cParams" {
+					cp = r
+				}
+			}
+			pt := ParamsType(cp.Method("get"), "")
+			return call(w, t, cp, "Get", "k5", schema.Base(pt).With("viewer", schema.VS(strT, fmt.Sprintf("viewer-of-thread-%d", t))))
+		}},
 	}
 }
 
@@ -350,6 +361,7 @@ func isolatedOutcomes(u *schema.Universe, reqs []c17Req) map[string]string {
 
 func normalise(out string, tid int) string {
 	// thread ids appear in the logs (header echo): make outcomes comparable with the isolated run
+	out = strings.ReplaceAll(out, fmt.Sprintf("viewer-of-thread-%d", tid), "viewer-of-thread-T")
 	return strings.ReplaceAll(strings.ReplaceAll(out, fmt.Sprintf("post=\"%d\"", tid), "post=\"T\""), fmt.Sprintf("X-Verif-Thread:[%d]", tid), "")
 }
 
@@ -455,22 +467,31 @@ func partC17(a *hcli.Args, rep *report.Report, univName string, u *schema.Univer
 // partC17Race: the same request bodies free-running (no scheduler) for the race detector.
 func partC17Race(a *hcli.Args, u *schema.Universe) {
 	reqs := c17Requests(u)
-	rounds := 60
+	rounds := 4
 	if a.Thorough() {
-		rounds = 300
+		rounds = 25
 	}
+	// every unordered pair of requests (a request with itself included: two calls of one method share
+	// whatever that method's registration shares), two goroutines per request, free-running
 	for r := 0; r < rounds; r++ {
-		w := newC17World(u, true)
-		var wg sync.WaitGroup
-		for i := 0; i < 6; i++ {
-			wg.Add(1)
-			rq := reqs[(r+i*3)%len(reqs)]
-			go func(i int) {
-				defer wg.Done()
-				rq.Run(w, i)
-			}(i)
+		for i := range reqs {
+			for j := i; j < len(reqs); j++ {
+				w := newC17World(u, true)
+				var wg sync.WaitGroup
+				for g := 0; g < 4; g++ {
+					wg.Add(1)
+					rq := reqs[i]
+					if g%2 == 1 {
+						rq = reqs[j]
+					}
+					go func(g int) {
+						defer wg.Done()
+						rq.Run(w, g)
+					}(g)
+				}
+				wg.Wait()
+			}
 		}
-		wg.Wait()
 	}
 	fmt.Println("race pass done:", rounds, "rounds")
 	_ = os.Stdout
